@@ -64,7 +64,8 @@ def random_query(rng, gd, max_size=2, with_conditions=False, allow_empty_x=False
 
 
 CALL_FORMS = ("outcomes", "identify", "from_expression", "from_parts", "from_str", "single",
-              "outcomes-seq", "outcomes-iter", "from_parts-iter", "raw-graph", "outcomes-kw")
+              "outcomes-seq", "outcomes-iter", "from_parts-iter", "raw-graph", "outcomes-kw", "str-graph",
+              "str-graph-identify")
 
 
 def raw_graph(g):
@@ -77,6 +78,27 @@ def raw_graph(g):
     d.add_nodes_from(g.directed.nodes())
     d.add_edges_from(g.directed.edges())
     return NxMixedGraph(directed=d, undirected=nx.Graph(list(g.undirected.edges())))
+
+
+def str_graph(g):
+    """The same graph over plain STRINGS (a graph read from a table before anybody wrapped the names): the
+    identification entry points upgrade the nodes themselves.  None when a node is a counterfactual variable."""
+    import networkx as nx
+    from y0.dsl import CounterfactualVariable
+    from y0.graph import NxMixedGraph
+
+    from .graphs import fresh
+
+    if any(isinstance(n, CounterfactualVariable) for n in g.nodes()):
+        return None
+    d, u = nx.DiGraph(), nx.Graph()
+    for n in g.directed.nodes():
+        d.add_node(fresh(n.name))
+    for n in g.undirected.nodes():
+        u.add_node(fresh(n.name))
+    d.add_edges_from((fresh(a.name), fresh(b.name)) for a, b in g.directed.edges())
+    u.add_edges_from((fresh(a.name), fresh(b.name)) for a, b in g.undirected.edges())
+    return NxMixedGraph(directed=d, undirected=u)
 
 
 def _held_query(ident, X, Y, Z, form, prop):
@@ -103,9 +125,11 @@ def call_id(g, q, form, prop=None):
 
     from .. import kernel
 
-    X = {Variable(x) for x in q["X"]}
-    Y = {Variable(y) for y in q["Y"]}
-    Z = {Variable(z) for z in q.get("Z") or []}
+    from .graphs import fresh
+
+    X = {Variable(fresh(x)) for x in q["X"]}
+    Y = {Variable(fresh(y)) for y in q["Y"]}
+    Z = {Variable(fresh(z)) for z in q.get("Z") or []}
     kernel.LOG.case["intended"] = {"X": sorted(q["X"]), "Y": sorted(q["Y"]), "Z": sorted(q.get("Z") or [])}
     if form == "outcomes":
         kernel.count("callform:" + form)
@@ -123,6 +147,18 @@ def call_id(g, q, form, prop=None):
         except Exception:  # noqa: BLE001
             kernel.count("callform:raw-graph-raised-not-judged")
             return None
+    if form in ("str-graph", "str-graph-identify"):
+        sg = str_graph(g)
+        if sg is None:
+            form = "outcomes" if form == "str-graph" else "identify"
+        elif form == "str-graph":
+            kernel.count("callform:" + form)
+            return identify_outcomes(sg, X, Y, Z) if Z else identify_outcomes(sg, X, Y)
+        else:
+            g = sg
+    if form == "outcomes":
+        kernel.count("callform:" + form)
+        return identify_outcomes(g, X, Y, Z) if Z else identify_outcomes(g, X, Y)
     if form in ("outcomes-seq", "outcomes-iter"):
         kernel.count("callform:" + form)
         k = sum(map(ord, "".join(sorted(q["X"])) + "".join(sorted(q["Y"]))))
@@ -160,7 +196,7 @@ def call_id(g, q, form, prop=None):
         expr = P[sorted(X, key=str)](body) if X else P(body)
         ident = Identification.from_expression(query=expr, graph=g)
     else:
-        form = "identify"
+        form = form if form == "str-graph-identify" else "identify"
         ident = Identification(query=Query(outcomes=Y, treatments=X, conditions=Z), graph=g)
     _held_query(ident, X, Y, Z, form, prop)
     try:
